@@ -93,16 +93,6 @@ def gen_obs(tier, seed):
         # thorough: larger complete geometries
         for nd in ((4, 5) if int8 else (8, 12)):
             obs.append(gen_ob(fn, np_, chunk, mode, file, nd, chunk, tier='thorough', timeout=3000, cost=60))
-        if not int8:
-            # table-free variants: every disk of the largest array, one symbolic disk at a time (bounded, labelled)
-            ks = [0, 1, 31, 32, 33, 127, 128, 249, 250] if tier == 'quick' else list(range(251))
-            rnd = random.Random(seed)
-            ks = sorted(set(ks + [rnd.randrange(251) for _ in range(3)]))
-            for k in ks:
-                obs.append(gen_ob(fn, np_, chunk, mode, file, 251, chunk, lo=k, hi=k + 1, tier='quick' if k in (0, 32, 128, 250) else 'thorough', cost=4, seed=seed))
-        else:
-            for nd, k in ((33, 32), (33, 0), (40, 39)):
-                obs.append(gen_ob(fn, np_, chunk, mode, file, nd, chunk, lo=k, hi=k + 1, tier='thorough', timeout=3000, cost=50, seed=seed))
     # the dispatcher raid_gen + raid_init binding (portable configuration), np = 1..6 and the alternate mode
     for np_ in range(1, 7):
         for mode in (('RAID_MODE_CAUCHY', 'RAID_MODE_VANDERMONDE') if np_ == 3 else ('RAID_MODE_CAUCHY',)):
@@ -149,6 +139,59 @@ __CPROVER_decreases(delta)
     ]
 
 
+# ---------------------------------------------------------------- recovery (C03)
+REC_SRCS = ['raid/int.c', 'raid/intz.c', 'raid/raid.c', 'raid/tables.c', 'raid/module.c', 'raid/helper.c']
+
+
+def rec_obs(tier, seed):
+    import itertools
+    R = 'harness/h_rec.c'
+    obs = []
+    recf = ['raid_delta_gen (raid/raid.c)', 'raid_gen (raid/raid.c)', 'raid_init (raid/module.c)', 'raid_mode (raid/raid.c)', 'raid_zero (raid/raid.c)']
+    # recovery through the first parity (raid_rec1_int8 -> raid_rec1of1 -> raid_gen): every lost disk
+    for nd in (2, 3, 4):
+        for x in range(nd):
+            obs.append(Ob('rec.rec1of1.nd%d.id%d' % (nd, x), R, 'h_recfn', REC_SRCS,
+                          defs={'ND': nd, 'NPT': 2, 'NR': 1, 'SIZE': 64, 'REC_FN': 'raid_rec1_int8', 'ID_LIST': x, 'IP_LIST': 0, 'MODE': 'RAID_MODE_CAUCHY'},
+                          unwind=70, solver=KISSAT, incl_first=['include/noasm'], timeout=900, mem=8, cost=10, tier='quick' if nd <= 3 else 'thorough',
+                          functions=['raid_rec1_int8 (raid/int.c)', 'raid_rec1of1 (raid/raid.c)', 'raid_gen (raid/raid.c)', 'raid_gen1_int64 (raid/int.c)'],
+                          note='nd=%d, data block %d lost, recovered from parity 0; size 64 (smallest the API admits); every content symbolic' % (nd, x)))
+    # delta parity: the first half of every decoder (pointer-vector shuffling + generator with aliased outputs)
+    for nd, npt, ids, ips, mode, quick in ((2, 2, (0,), (1,), 'C', True), (2, 2, (0, 1), (0, 1), 'C', True), (3, 3, (1,), (2,), 'C', True), (3, 3, (0, 2), (0, 2), 'C', False),
+                                           (3, 3, (0, 2), (1, 2), 'C', False), (2, 3, (1,), (2,), 'Z', True), (3, 4, (0, 1, 2), (0, 1, 3), 'C', False), (2, 6, (0, 1), (2, 5), 'C', False)):
+        obs.append(Ob('rec.delta_gen.nd%d.p%d%s.id%s.ip%s' % (nd, npt, mode.lower(), ''.join(map(str, ids)), ''.join(map(str, ips))), R, 'h_delta_gen', REC_SRCS,
+                      defs={'ND': nd, 'NPT': npt, 'NR': len(ids), 'SIZE': 64, 'ID_LIST': ','.join(map(str, ids)), 'IP_LIST': ','.join(map(str, ips)),
+                            'MODE': 'RAID_MODE_CAUCHY' if mode == 'C' else 'RAID_MODE_VANDERMONDE'},
+                      unwind=70, solver=KISSAT, incl_first=['include/noasm'], timeout=3000, mem=10, cost=60, tier='quick' if quick else 'thorough', functions=recf,
+                      note='nd=%d, %d parity blocks, lost %s, parities used %s; unused parities alias the last lost block and must come back untouched' % (nd, npt, ids, ips)))
+    for n in (1, 2):
+        obs.append(Ob('rec.invert.n%d' % n, R, 'h_invert', ['raid/raid.c', 'raid/tables.c'], defs={'INV_N': n}, unwind=8, solver=KISSAT, timeout=3000, mem=8, cost=40,
+                      functions=['raid_invert (raid/raid.c)', 'mul (raid/gf.h)', 'inv (raid/gf.h)'], kind='bounded', bound='n = %d (n <= 6 in the code)' % n,
+                      note='every %dx%d matrix without zero pivot' % (n, n)))
+    obs.append(Ob('rec.dispatch.raid_rec', R, 'h_dispatch', ['raid/raid.c', 'raid/tables.c'], unwind=8, timeout=900, mem=6, cost=10,
+                  functions=['raid_rec (raid/raid.c)'],
+                  note='UNBOUNDED in nd (1..251), np (1..6) and the failure list (all symbolic); the decoders and generators are replaced by recording stubs'))
+    for name, tab, rows in (('cauchy', 'raid_gfcauchy', 6), ('power', 'raid_gfvandermonde', 3)):
+        obs.append(Ob('mds.%s.order1-2' % name, R, 'h_mds2', ['raid/tables.c'], defs={'MDS_TABLE': tab, 'MDS_ROWS': rows}, timeout=900, mem=4, cost=10,
+                      functions=[tab + ' (raid/tables.c)'], note='row and column indices symbolic: all %d x 251 entries, all 2x2 minors' % rows))
+    for r in itertools.combinations(range(6), 3):
+        obs.append(Ob('mds.cauchy.order3.rows%d%d%d' % r, R, 'h_mds3', ['raid/tables.c'], defs={'MDS_R0': r[0], 'MDS_R1': r[1], 'MDS_R2': r[2]},
+                      solver=KISSAT, timeout=3000, mem=6, cost=40, tier='quick' if r in ((0, 1, 2), (3, 4, 5)) else 'thorough',
+                      functions=['raid_gfcauchy (raid/tables.c)'], note='rows %s concrete, the three columns symbolic (all C(251,3) = 2 604 125 column triples)' % (r,)))
+    obs.append(Ob('mds.power.order3', R, 'h_mds3', ['raid/tables.c'], defs={'MDS_TABLE': 'raid_gfvandermonde', 'MDS_ROWS': 3}, solver=KISSAT, timeout=3000, mem=6, cost=40,
+                  functions=['raid_gfvandermonde (raid/tables.c)'], note='the only row triple (0,1,2), columns symbolic'))
+    obs.append(Ob('helper.raid_sort', R, 'h_sort', ['raid/helper.c'], unwind=8, timeout=600, mem=4, cost=3, functions=['raid_sort (raid/helper.c)']))
+    obs.append(Ob('helper.raid_insert', R, 'h_insert', ['raid/helper.c'], unwind=9, timeout=600, mem=4, cost=3, functions=['raid_insert (raid/helper.c)']))
+    for r, n in ((1, 1), (1, 8), (2, 8), (3, 8), (6, 8), (5, 6), (6, 6)):
+        obs.append(Ob('combo.r%d.n%d' % (r, n), R, 'h_comb', [], defs={'COMB_R': r, 'COMB_N': n}, unwind=80, timeout=600, mem=4, cost=3, kind='bounded',
+                      bound='r=%d, n=%d concrete (n = nd+np of the stripe being scanned; n <= 8 here)' % (r, n), functions=['combination_first (raid/combo.h)', 'combination_next (raid/combo.h)']))
+    return obs
+
+
+def c03(tier, seed):
+    return rec_obs(tier, seed) + table_obs(tier)
+
+
 def c09(tier, seed):
     return stream_obs(['h_sgetb32', 'h_sgetb64', 'h_sgetble32', 'h_sgetbs'])
 
@@ -159,9 +202,81 @@ def c10(tier, seed):
 
 PROPS = {
     'C17': dict(level='proof', obligations=c17, explanation='', trusted_base=[], assumptions=[], not_covered=[]),
+    'C03': dict(level='proof', obligations=c03, explanation='', trusted_base=[], assumptions=[], not_covered=[]),
     'C09': dict(level='other', obligations=c09, explanation='', trusted_base=[], assumptions=[], not_covered=[]),
     'C10': dict(level='other', obligations=c10, explanation='', trusted_base=[], assumptions=[], not_covered=[]),
     'C02': dict(level='proof', obligations=c02,
                 explanation='',
                 trusted_base=[], assumptions=[], not_covered=[]),
+}
+
+
+# ---------------------------------------------------------------- evidence / manifest texts
+SIMD_NOTE = ('the 23 SSE2/SSSE3/AVX2 variants in raid/x86.c and raid/x86z.c are inline assembly, which cbmc does not interpret: '
+             'NOT verified (every table they read is)')
+CBMC_BUG = ('cbmc 6.11 simplifier defect found while building: a pointer to a ROW of a 2-D array (e.g. table(v) == raid_gfmul[v]) dereferenced with a '
+            'symbolic index is translated as an index into row 0 (minimal reproducer in DESIGN.md section 2.3; --no-simplify avoids it but needs >30 GB here). '
+            'Code that does this (the T[...][x] loops of raid_rec1/2/X_int8, raid_rec2of2_int8, raid_validate) is therefore NOT under an obligation; '
+            'every obligation that is claimed dereferences rows only with concrete indices or uses A[i][j] indexing, which the defect does not touch')
+
+PROPS['C02'].update(
+    explanation='Lemmas over the real raid/tables.c tie every lookup table to a table-free GF(2^8)/0x11d specification and to the documented Cauchy / power matrices for ALL indices (symbolic, loop-free). '
+                'The bit tricks x2/d2 carry dfcc-enforced contracts for all arguments. Every portable generator (gen1/2/z int32+int64, gen3..6 int8) and the dispatcher raid_gen (+ real raid_init binding) is checked '
+                'against sum_d A[j][d]*D_d, frame included (data, pointer vector, guard bytes), with ALL contents symbolic, for the geometries listed in units: nd 1..3 (int8) / 1..4 (int32/64) in quick, up to 5 / 12 in thorough. '
+                'Whole-function obligations do not scale to large nd (DESIGN.md section 2.2: the verification condition is a XOR-of-table-lookups miter no installed SAT back end decomposes), so for nd beyond those values the claim rests on the table lemmas only.',
+    trusted_base=['spec/gf_spec.h (40 lines, table-free field arithmetic and the documented matrix)', 'include/noasm/config.h for the dispatcher units (repo config.h with HAVE_ASSEMBLY off)'],
+    assumptions=[SIMD_NOTE, 'generator obligations enumerate geometry: nd <= 5 (int8) / nd <= 12 (int32/int64), size = 1 or 2 chunks of the implementation (64 bytes through raid_gen); larger nd and sizes are NOT covered by a whole-function obligation', CBMC_BUG],
+    not_covered=['raid/x86.c, raid/x86z.c (inline assembly)', 'generators at nd > 12 / nd > 5 (int8) as whole functions', 'block sizes beyond two chunks (the outer loop carries no state; argued, not discharged)'])
+PROPS['C03'].update(
+    explanation='(1) MDS on the real tables: every 1x1 and 2x2 minor of the 6x251 Cauchy and 3x251 power matrices is non-singular for ALL row/column pairs (symbolic indices), every 3x3 minor for ALL column triples per row triple (2 row triples in quick, all 20 in thorough) - orders 4..6 are NOT discharged (3.8e11 minors; the structural Cauchy argument needs mathematics outside the tool). '
+                '(2) raid_rec dispatch: for EVERY nd <= 251, np <= 6 and sorted failure list (all symbolic), the decoder slot, id[], ip[] (first surviving parities) and the regenerated parity range are exactly as specified, decoders replaced by recording stubs. '
+                '(3) raid_delta_gen and recovery through parity 0 (raid_rec1_int8 -> raid_rec1of1) restore / compute exactly the specified bytes and leave every other block, unused (aliased) parities, the zero block and the pointer vector untouched, for small concrete geometries with all contents symbolic. '
+                '(4) raid_invert: M*V == I for every 1x1 / 2x2 matrix without zero pivot. (5) raid_sort / raid_insert: sorted permutation for all inputs, n <= 6; combination_first/next: exactly C(n,r) strictly increasing tuples in lexicographic order for the listed (r, n). '
+                'The reconstruction loops that read T[..][x] through row pointers are not under an obligation (cbmc defect, see assumptions).',
+    trusted_base=['spec/gf_spec.h', 'include/noasm/config.h (dispatch tables without inline assembly)'],
+    assumptions=[SIMD_NOTE, CBMC_BUG, 'MDS orders 4..6 rest on the Cauchy-matrix theorem (Roth 2006) applied to the structure proved by TAB-CAUCHY: mathematics outside the tool, not a discharged obligation',
+                 'geometries of the data-path obligations are small and concrete (nd <= 4, size 64); they are complete for those geometries only'],
+    not_covered=['T[..][x] reconstruction loops of raid_rec1_int8 (ip != 0), raid_rec2_int8, raid_recX_int8, raid_rec2of2_int8', 'raid_validate / raid_check / raid_scan (same row-pointer reads)', 'SSSE3/AVX2 decoders (inline assembly)', 'raid_invert for n >= 3'])
+PROPS['C09'].update(
+    explanation='Memory safety and exact accept/reject behaviour of the content-file decoding primitives (sgetb32, sgetb64, sgetble32, sgetbs, sread, sgetc, sgetc_uncached, sfill) for EVERY byte string (12 bytes visible, a 64-bit varint has at most 10) under EVERY chunking by read() and stream buffer size 1..4 (STREAM_SIZE is a run-time variable of the real code): cbmc pointer/bounds/overflow/shift obligations on the real cmdline/stream.c plus equality with an arithmetic varint specification. '
+                'This found a genuine defect (sgetbs length 0xffffffff, out-of-bounds write), repaired by a fix: commit (known_findings.txt). Record-level decoding in state_read_content, the CRC seal and the write/verify/rename order are not yet under contract (see not_covered).',
+    trusted_base=['read()/write() stubs in harness/h_stream.c (assumed contract of the OS calls)', 'crc32c replaced by its contract "pure, any value" in these units'],
+    assumptions=['string obligations use destination buffers of at most 6 bytes (bounded, labelled)', 'forming (not dereferencing) a pointer past the end of the stream buffer (stream.h sptrlookup) is not counted as a violation'],
+    not_covered=['state_read_content record decoders', 'CRC-32C seal', 'atomic replacement order in state_write', 'crash points (not a contract-level statement)'])
+PROPS['C10'].update(
+    explanation='Codec pairs of the content file are exact inverses for ALL values: sgetb32(sputb32(v)) == v for all 2^32 v, sgetb64(sputb64(v)) == v for all 2^64 v, sgetble32/sputble32, sgetbs/sputbs (strings up to 6 arbitrary non-NUL bytes), with the bytes travelling through write() and read() stubs under every chunking and buffer size 1..4; the encoder output is minimal (canonical) and terminated as specified, nothing is left over. '
+                'Record-level encode/decode of state.c is not yet under contract.',
+    trusted_base=['read()/write() stubs in harness/h_stream.c'],
+    assumptions=['sputbs/sgetbs round trip bounded to strings of at most 6 bytes'],
+    not_covered=['state_write_content / state_read_content record level', 'tommyds containers, list ordering, byte identity of whole files'])
+PROPS['C17'].update(
+    explanation='parity_split_find carries a dfcc-enforced contract for every size vector of up to SPLIT_MAX=8 splits and every offset: the result is the unique split k with prefix(k) + offset\' == offset and 0 <= offset\' < size_k, NULL exactly outside the recorded sizes, only *offset assigned. Over two calls: the address map is injective and, with block-aligned split sizes, no stripe straddles two files. '
+                'parity_write / parity_read hand exactly (fd of split k, offset\', block_size) to pwrite/pread and maintain valid_size monotonically (block sizes 2^10..2^24, concrete per unit). hbit_u64 is the highest set bit (dfcc, all 2^64 values). parity_handle_fill carries an UNBOUNDED inductive loop contract (invariant + decreases, injected into a scratch copy of parity.c, grow/shrink/hbit replaced by contracts): the file ends block aligned, never above the request, never below its previous aligned size, and exactly at the request when the OS granted every grow.',
+    trusted_base=['stubs for pwrite/pread/log_*/bw_limit/advise_* in harness/h_parity.c', 'include/small_path.h (PATH_MAX 64 in the cbmc build)'],
+    assumptions=['growth/shrink SEQUENCES (histories) and the byte-identity with a single-file parity are not function-level statements; the latter follows from the address-map contract plus C02 and is argued, not discharged', 'parity_chsize is not yet under contract'],
+    not_covered=['parity_chsize / parity_handle_chsize composition', 'parity_open / parity_create', 'state.c persistence of split sizes'])
+
+MANIFEST_TEXT = {
+    'C02': dict(level_text='Deductive proof on the real code with CBMC: table lemmas and bit-trick contracts hold for all inputs without any bound; generator contracts are proved for all contents per enumerated geometry (small nd). Proof is the right level for the algebra because the property IS a per-call input/output statement; the part cbmc cannot reach (large nd as whole functions, SIMD assembly) is stated, not claimed.',
+                design_ref='DESIGN.md section 4 C02', level_note='spec/gf_spec.h; cbmc+CaDiCaL/kissat; SIMD inline assembly unverified; generator geometries nd<=5/12 only', technique='CBMC code contracts (dfcc) + assume/call/assert drivers on real raid/*.c, table-free GF(2^8) spec'),
+    'C03': dict(level_text='Deductive proof on the real code: MDS minors up to order 3 for all index tuples, the raid_rec dispatch contract for all nd/np/failure lists, raid_delta_gen / rec1of1 / raid_invert / helpers for all contents per small geometry. The table-driven reconstruction loops are out of reach of the installed cbmc (simplifier defect) and are listed as not covered.',
+                design_ref='DESIGN.md section 4 C03', level_note='orders 4..6 of the MDS claim rest on the Cauchy theorem (assumption); reconstruction loops and SIMD not verified', technique='CBMC contracts/drivers on real raid/raid.c, int.c, helper.c, combo.h; symbolic-index minors on tables.c'),
+    'C09': dict(level_text='Contract-level proof of the decoding primitives (all byte strings, all chunkings) gives the memory-safety half of the property for the stream layer; record decoders, CRC and replacement order are partially covered - hence level other, with the functions under contract listed.',
+                design_ref='DESIGN.md section 4 C09', level_note='OS read/write by stub; strings <= 6 bytes; record-level decoding not covered', technique='CBMC drivers on real cmdline/stream.c with arithmetic varint spec; ASan replay'),
+    'C10': dict(level_text='Encode/decode pairs are proved inverse for all values (full 32/64-bit domains); the record level of state.c is not under contract, hence level other.',
+                design_ref='DESIGN.md section 4 C10', level_note='OS read/write by stub; strings <= 6 bytes', technique='CBMC drivers on real cmdline/stream.c, round trip through ghost file'),
+    'C17': dict(level_text='The address map of split parity is a per-call statement and is proved for all inputs (dfcc contract, SPLIT_MAX bound complete); the resize loop carries an unbounded loop contract. Resize sequences are histories and are not claimed.',
+                design_ref='DESIGN.md section 4 C17', level_note='OS calls by stub; PATH_MAX shim; parity_chsize not yet under contract', technique='CBMC code contracts (dfcc enforce/replace, loop contract) on real cmdline/parity.c'),
+}
+
+NOT_YET = {
+    'C01': 'not built yet in this session (planned: repair / blockcmp / file_block_size contracts)',
+    'C04': 'not built yet in this session',
+    'C05': 'not built yet in this session',
+    'C06': 'not built yet in this session',
+    'C15': 'not built yet in this session',
+    'C16': 'not built yet in this session',
+    'C18': 'not built yet in this session',
+    'C19': 'not built yet in this session',
+    'C20': 'not built yet in this session',
 }
